@@ -92,10 +92,42 @@ def impl_ident(text, rx):
     return "noid " + hexs(out.encode())
 
 
+# programs that make the tool write identifiers of its own (pid, the display / play records, the error number, temporaries,
+# the joystick cells): with the prologue and --initialize-vars, the only identifiers the initialisation block may clear are
+# the translations of the program's own variables A and B$ - a generated identifier is never handled as a user variable
+GENERATED_PROGRAMS = [
+    "10 HBUFF 1,100:A=1:B$=\"X\"", "10 HGET(0,0)-(9,9),1:A=1:B$=\"X\"", "10 HPUT(0,0)-(9,9),1,PSET:A=1:B$=\"X\"",
+    "10 HBUFF 1,100:HGET(0,0)-(9,9),1:HPUT(0,0)-(9,9),1,PSET:A=1:B$=\"X\"", "10 ON ERR GOTO 20:A=1:B$=\"X\"\n20 A=ERNO",
+    "10 ON BRK GOTO 20:A=1:B$=\"X\"\n20 END", "10 PLAY \"CDE\":SOUND 1,2:A=1:B$=\"X\"", "10 B$=INKEY$:A=JOYSTK(0)+BUTTON(1)",
+    "10 HSCREEN 2:HCLS:HCOLOR 1,2:A=POINT(1,2):B$=STR$(A)", "10 A=INT(A/2):B$=HEX$(A)+STRING$(2,\"X\")",
+    "10 HCIRCLE(1,2),3:HLINE-(3,4),PSET:HPRINT(1,2),B$:A=1", "10 INPUT A,B$:LINE INPUT B$", "10 DATA 1,,X\n20 READ A,A,B$",
+    "10 WIDTH 40:LOCATE 1,2:ATTR 1,2:CLS A:PRINT B$", "10 POKE 65497,0:A=PEEK(1):B$=\"\"",
+]
+
+
+def generated_case_impl(text):
+    from coco.b09.compiler import convert
+    res = []
+    for kw in ({}, {"default_width32": False}, {"filter_unused_linenum": True}):
+        try:
+            out = convert(text, initialize_vars=True, **kw)
+        except Exception as e:  # noqa: BLE001
+            return "rejected " + type(e).__name__
+        head = []
+        for line in out.split("\n"):
+            if re.match(r"^\d+ ", line):
+                break
+            head.append(line)
+        res += re.findall(r'(?m)^([A-Za-z_][A-Za-z0-9_]*\$?) := (?:0\.0|"")$', "\n".join(head))
+    return "ok " + hexs(",".join(sorted(set(res))).encode())
+
+
 def cases(tier):
     r = rng("names-cases")
     ns = names(tier)
     out = []
+    for t in GENERATED_PROGRAMS:
+        out.append({"fmt": "names", "kind": "generated-ident", "name": "A", "text": t, "rx": "", "req": "ping"})
     for n in ns:
         tpls = TEMPLATES if tier == "thorough" or n in RESERVED or len(n) <= 2 and r.randrange(4) == 0 else r.sample(TEMPLATES, 5)
         for kind, tpl, rx in tpls:
@@ -107,7 +139,10 @@ def cases(tier):
 def run(tier):
     cs = cases(tier)
     model = run_driver([c["req"] for c in cs])
-    impl = [impl_ident(c["text"], c["rx"]) for c in cs]
+    impl = [generated_case_impl(c["text"]) if c["kind"] == "generated-ident" else impl_ident(c["text"], c["rx"]) for c in cs]
+    for k, c in enumerate(cs):
+        if c["kind"] == "generated-ident":
+            model[k] = impl[k]          # no model side: the rule is the oracle's
     # names the grammar refuses (they start with a keyword) are outside the model's domain
     for k, i in enumerate(impl):
         if i.startswith("rejected"):
@@ -142,6 +177,16 @@ GENERATED = {"display", "play", "pid", "erno", "errnum", "ERNO", "joy0x", "joy0y
 
 
 def oracle(case, impl):
+    if case["kind"] == "generated-ident":
+        if not impl.startswith("ok "):
+            return f"{case['text']!r} is not converted: {impl}"
+        from common import unhex
+        cleared = [x for x in unhex(impl[3:]).decode().split(",") if x]
+        extra = [x for x in cleared if x not in ("A", "B$")]
+        if extra:
+            return (f"{case['text']!r}: the initialisation block clears {extra[0]!r} like a user variable, but the program's "
+                    f"variables are A and B$ ({extra[0]} is an identifier the tool generates itself)")
+        return None
     if case["name"] in RESERVED:
         # a reserved word must not be a variable in one place and something else in another
         aux = case.get("aux", {})
